@@ -242,6 +242,20 @@ Definition fetch_part2 (c : nat) : list step :=
   (if fetch_test_before_sync then [] else [TestLocal false c]) ++ [MergeLocal false c].
 Definition FetchNotes (c : nat) : list step := fetch_part0 c ++ fetch_part1 c ++ fetch_part2 c.
 
+(* git pull through the proxy: the notes fetch runs in a background thread next to git's own pull;
+   pull_post_command_hook has three exits (pull failed / HEAD unchanged / HEAD moved).  An exit
+   that does not join the thread lets the process end while the notes fetch is still running: its
+   sub-steps then do not happen (the thread dies with the process).  Which exits join is read from
+   the source (Gen/GenSync.v). *)
+Inductive pull_exit := PullFailed | PullUnchanged | PullMoved.
+Definition pull_joins (e : pull_exit) : bool :=
+  match e with
+  | PullFailed => pull_join_failed
+  | PullUnchanged => pull_join_unchanged
+  | PullMoved => pull_join_moved
+  end.
+Definition PullNotes (e : pull_exit) (c : nat) : list step := if pull_joins e then FetchNotes c else [].
+
 (* one round with foreign steps in the two gaps between its processes (the existence test and
    the merge-or-copy are adjacent processes) *)
 Definition spread (r : bool) (c : nat) (ma mb : list step) : list step :=
